@@ -147,6 +147,7 @@ namespace TR
    inline TreeResult run_tree( const Cfg& c, In& in, long fuel_limit )
    {
       if( c.fam == 0 ) return run_tree_act< p::nothing >( c, in, fuel_limit );
+      if( c.fam == 5 ) return run_tree_act< act_bool >( c, in, fuel_limit );  // vetoing actions: a vetoed match must leave no node
       return run_tree_act< act_apply >( c, in, fuel_limit );
    }
 
